@@ -307,9 +307,9 @@ def op (st : St) (toks : List String) : St × String :=
       -- absMax the first quantizer gets: trained on `arg`, or set to it
       let mA? : Option Float32 := if mode == "set" then pf arg else (pvs arg).map (trainAbsMax f32)
       match mA?, splitBar post with
-      | some mA, [[distinct, types, pre], [amax1, mid], [amax2], [r0], [r1], [last, unch], [amax3]] =>
-        match pfs amax1, pfs amax2, pfs amax3 with
-        | some ia1, some ia2, some ia3 =>
+      | some mA, [[distinct, types, pre], [amax1, mid], [amax2], [r0], [r1], [last, unch], [amax3], [amaxR, r0b]] =>
+        match pfs amax1, pfs amax2, pfs amax3, pfs amaxR with
+        | some ia1, some ia2, some ia3, some iaR =>
           let mB := trainAbsMax f32 tvB
           let zero : Float32 := 0
           let others := List.replicate (n - 2) zero
@@ -318,7 +318,8 @@ def op (st : St) (toks : List String) : St × String :=
           let use (A : Float32) : String :=
             showUse (quantInt8 f32 f32round A v) ((quantInt8 f32 f32round A v).bind fun q => deqInt8 f32 A q)
           let diff := firstDiff [cmpTok "absMax-after-first" (hfs exp1) (hfs ia1), cmpTok "absMax-after-second" (hfs exp2) (hfs ia2),
-            cmpTok "first-quantizer" (use mA) r0, cmpTok "second-quantizer" (use mB) r1]
+            cmpTok "first-quantizer" (use mA) r0, cmpTok "second-quantizer" (use mB) r1,
+            cmpTok "absMax-after-retraining-first" (hfs (mB :: mB :: others)) (hfs iaR), cmpTok "first-quantizer-retrained" (use mB) r0b]
           -- property level, on the implementation's outputs
           let ownOk (r : String) (A : Float32) : Bool :=
             match r.splitOn ";" with
@@ -336,11 +337,14 @@ def op (st : St) (toks : List String) : St × String :=
               ia2.length == n && hx (a2 0) == hx (a1 0) && ((ia2.drop 2).all fun x => x.toBits == 0) && (last == "-" || last == "011")),
             ("q_int8_instances_independent_setabsmax",
               ia3.length == n && hfs (ia3.drop 1) == hfs (ia2.drop 1) && hfs (ia3.take 1) == "40500000"),
+            ("q_int8_train_determined_by_its_argument (re-trained on the second's data: same range, same output)",
+              iaR.length == n && hx (iaR.getD 0 zero) == hx (a2 1) && r0b == r1 && hfs (iaR.drop 1) == hfs (ia2.drop 1)),
+            ("q_int8_error_own_range_retrained", ownOk r0b (a2 1)),
             ("q_int8_error_own_range_first", ownOk r0 (a1 0)),
             ("q_int8_error_own_range_second", ownOk r1 (a2 1)),
             ("input_unchanged", unch == "1")]
           (st, verdict checks diff s!"multi={n} distinct={distinct} factory={b01 (via == "factory")} setabsmax={b01 (mode == "set")} firsttrained={b01 (isTrained f32 mA)} secondtrained={b01 (isTrained f32 mB)}")
-        | _, _, _ => (st, "BADOP qmulti outcome parse")
+        | _, _, _, _ => (st, "BADOP qmulti outcome parse")
       | _, _ => (st, "BADOP qmulti outcome")
     | _, _, _ => (st, "BADOP qmulti")
   | ["qnew", kind] =>
